@@ -180,14 +180,16 @@ W["map_block_trial_ranges"] = dict(
                    "implies(len(lists) > 0, start - step < num_trials - preamble)"],
         decreases="num_trials - preamble - start")},
     ensures=[
-        # helper level (from the code): the windows that are enumerated
+        # the windows that are enumerated (property level, C26): repetition j starts `step` trials after repetition j-1, the first one where the block's own
+        # preamble begins, and every window has the block's FULL length num_trials (own preamble + one run), cut off at the end of the sequence.
+        # (Until fix 887de88 the code ended window j at num_trials + j*step whatever the start, and this clause had been copied from the code — D36.)
         "implies(is_none(within_block), len(result) == 1 and result[0] == proc(0, T))",
-        f"implies(not is_none(within_block), forall(j, 0, len(result), result[j] == proc({_S0} + j * {_STEP}, min(within_block.num_trials + j * {_STEP}, T))))",
+        f"implies(not is_none(within_block), forall(j, 0, len(result), result[j] == proc({_S0} + j * {_STEP}, min({_S0} + within_block.num_trials + j * {_STEP}, T))))",
         # all non-preamble trials are covered by some window
         f"implies(not is_none(within_block), {_S0} + len(result) * {_STEP} >= T - within_block.preamble_size)",
         f"implies(not is_none(within_block), len(result) >= 1)",
         # property level (C26 / main.rst): every repetition window lies inside the trial sequence [0, T]
-        f"implies(not is_none(within_block), forall(j, 0, len(result), 0 <= {_S0} + j * {_STEP} and {_S0} + j * {_STEP} < T - within_block.preamble_size and min(within_block.num_trials + j * {_STEP}, T) <= T))",
+        f"implies(not is_none(within_block), forall(j, 0, len(result), 0 <= {_S0} + j * {_STEP} and {_S0} + j * {_STEP} < T - within_block.preamble_size and min({_S0} + within_block.num_trials + j * {_STEP}, T) <= T))",
     ],
     native=dict(call=_mbtr_call, domain=_mbtr_domain),
 )
